@@ -332,6 +332,13 @@ def check(engine: Engine, tier: str, batch_seed: int, jobs: int, n_override: int
             continue
         new_viol += 1
         if len(replays) >= 8:
+            # enough reductions for one invocation: keep the (unreduced) scenario as the replay file
+            res = safe_execute(engine, scen)
+            path = write_replay(engine, scen, vj, res.digest, {"note": "not reduced (more than 8 distinct violations)"})
+            replays.append(path)
+            print(f"VIOLATION property={engine.prop} replay={path}")
+            print(f"  clause={clause} signature={sig} occurrences={count}")
+            exit_code = 1
             continue
         red, digest, stats = reducer.reduce(engine, scen, (clause, sig))
         res = safe_execute(engine, red)
